@@ -139,7 +139,7 @@ class QGen:
             elif r < 0.8 and (s or l):
                 sel.append(('chain', a, rng.choice(s + l)))
             else:
-                sel.append(('str', lit(rng.choice(['hello', 'a"q', 'x, y', 'SELECT', '', 'dir\\', 'wide   gap', 'q\\"  x']))))
+                sel.append(('str', lit(rng.choice(['hello', 'a"q', 'x, y', 'SELECT', '', 'dir\\', 'wide   gap', 'q\\"  x', '100% sure', '%d', 'a%', '%!s(x)', 'tab\there', '{0}']))))
         return dict(preds=preds, frm=frm, where=w, select=sel)
 
 
